@@ -68,5 +68,11 @@ class LockContext:
         return self
 
     def __exit__(self, *args):
-        Unlock(self.session, self.device_handler, raise_mode=RaiseMode.ERRORS).request(self.target)
+        try:
+            Unlock(self.session, self.device_handler, raise_mode=RaiseMode.ERRORS).request(self.target)
+        except Exception:
+            # A failing unlock must not mask an exception raised by the body of the
+            # with-block: that one is already propagating (args[0] is its type).
+            if not args or args[0] is None:
+                raise
         return False
